@@ -174,6 +174,10 @@ func (x *exec) appendOp(st *State, s, t Value) Value {
 				smt.Ite(inRange(sLen, k, newLen), tAt(smt.BVBin("bvsub", k, sLen)), e.zeroLeaf(l.Sort)))
 		})
 		m1 := smt.Store(mem, sArr, smt.Ite(smt.And(fits, smt.Not(caseA)), innerB, sInner))
+		if sArr.S == e.null().S {
+			// append to the nil slice (the copying idiom append([]T(nil), xs...)): nothing can be written in place
+			m1 = mem
+		}
 		m2 := smt.Store(m1, r, innerC)
 		e.setHeapArr(st, key, m2)
 	}
